@@ -25,7 +25,8 @@ FsInit(c) == [done |-> FALSE, offset |-> 0, order |-> <<>>,
               es |-> [i \in 0..(c.n - 1) |-> IF c.fam = "race_ok" /\ c.cont = "vec" THEN "F" ELSE "P"],
               errs |-> [i \in 0..(c.n - 1) |-> -1], completed |-> 0, allDone |-> TRUE]
 
-Init == \E c \in Cfgs : InitEnv(c, c.n, FsInit(c))
+InitFor(c) == InitEnv(c, c.n, FsInit(c))
+Init == \E c \in Cfgs : InitFor(c)
 
 Rotated(off) == [k \in 1..N |-> (k - 1 + off) % N]      \* Indexer::iter (utils/indexer.rs)
 ErrSeq(f) == [i \in 1..N |-> f.errs[i - 1]]
